@@ -7,7 +7,7 @@ import json, os, random, re
 from concurrent.futures import ThreadPoolExecutor
 from rig import common
 
-WRAPS = "recv,send,pread,pwrite,recvfrom,epoll_ctl,timerfd_create,timerfd_settime"
+WRAPS = "recv,send,pread,pwrite,recvfrom,accept4,epoll_ctl,timerfd_create,timerfd_settime"
 EXTRA = ["src/net/socket.c", "src/net/socket_address.c", "src/net/socket_options.c", "src/utils/sys.c"]
 READ, WRITE = 0, 1
 
@@ -198,6 +198,47 @@ def sc_notify(rng, k, deep):
     L += ["m quiesce", "m tkcount %d" % k, "m tkfree %d" % k, "m reset"]
     return L
 
+def sc_pkt(rng, k, deep):
+    """tp_task_pkt_rcvr_create on a datagram socketpair: one callback per datagram, the loop goes on while the callback continues"""
+    tr = rng.randint(2, 6); off = rng.randint(0, 2); size = off + tr + rng.randint(0, 1)
+    tmode = rng.choice(["none", "none", "generous", "before"]); tmo = {"none": 0, "generous": 60000, "before": 25}[tmode]
+    fin = rng.choice(["rsN", "sN", "dN", "rsX"]) if tmo else rng.choice(["rsN", "sN", "rsX"])
+    P = {"P": rng.choice(["rC", "rC", "rC,rC," + fin, "C", "rC,C,C," + fin]), "T": rng.choice(["C", "C,sN", "sN"]), "X": rng.choice(["sX", "C,sX"]), "F": "sN", "E": "sN"}
+    L = ["m tknew %d 3 %d %d %d %d" % (k, size, off, tr, off)] + pol_lines(k, P)
+    if rng.random() < 0.3: L.append("m tkinj %d %d %d" % (k, rng.randint(1, 4), rng.choice([4, 11, 104, 111])))
+    L += w0(["varcreate %d 0 %d" % (k, tmo)])
+    a = 1
+    for i in range(rng.randint(1, 5)):
+        if tmode == "before" and i == 0: L.append("m tkwait %d 1 1 10000" % k)
+        c = rng.randint(1, tr + (1 if rng.random() < 0.2 else 0))
+        L.append("m peerw %d %d %d" % (k, a, c)); a += c
+        if rng.random() < 0.5: L.append("m quiesce")
+    L += ["m quiesce", "m tkcount %d" % k, "m tkfree %d" % k, "m reset"]
+    return L
+
+def sc_accept(rng, k, deep):
+    """tp_task_accept_create on a listening TCP socket made with skt_bind/skt_listen: one callback per connection, in order"""
+    tmode = rng.choice(["none", "none", "generous", "before"]); tmo = {"none": 0, "generous": 60000, "before": 25}[tmode]
+    P = {"P": rng.choice(["C", "C", "C,C,sN", "C,sN", "sN"]), "T": rng.choice(["C", "C,sN", "sN"]), "X": rng.choice(["C", "sX", "C,sX"]), "F": "sN", "E": "sN"}
+    L = ["m tknew %d 4 4 0 4 0" % k] + pol_lines(k, P)
+    if rng.random() < 0.4: L.append("m tkinj %d %d %d" % (k, rng.randint(1, 4), rng.choice([24, 103, 4, 11, 23])))
+    L += w0(["varcreate %d 0 %d" % (k, tmo)])
+    for i in range(rng.randint(1, 3)):
+        if tmode == "before" and i == 0: L.append("m tkwait %d 1 1 10000" % k)
+        L.append("m peerconn %d %d" % (k, rng.randint(1, 3)))
+        if rng.random() < 0.6: L.append("m quiesce")
+    L += ["m quiesce", "m tkcount %d" % k, "m tkfree %d" % k, "m reset"]
+    return L
+
+def sc_connect(rng, k, deep):
+    """tp_task_connect_create on a socket from skt_connect(): connected / refused / never answered (timeout)"""
+    mode = rng.choice([0, 0, 1, 2]); tmo = 40 if mode == 2 else rng.choice([0, 60000])
+    P = {c: rng.choice(["N", "C", "sN", "DN", "E"]) for c in "PFETX"}
+    L = ["m tknew %d 5 4 0 4 %d" % (k, mode)] + pol_lines(k, P)
+    L += w0(["varcreate %d 0 %d" % (k, tmo)])
+    L += ["m tkwait %d 0 1 10000" % k, "m quiesce", "m tkcount %d" % k, "m tkfree %d" % k, "m reset"]
+    return L
+
 def sc_trickle(rng, k, deep):
     """bytes arrive one event at a time into a larger window: the library accumulates across events (tot_transfered_size)
     and reports the sum with the next condition (window full, EOF, timeout)"""
@@ -217,7 +258,8 @@ def sc_trickle(rng, k, deep):
     L += ["m quiesce", "m tkcount %d" % k, "m tkfree %d" % k, "m reset"]
     return L
 
-KINDS = [("trickle", sc_trickle, 3), ("notify-pipe", sc_notify, 3), ("stream-read", sc_stream_read, 10), ("stream-write", sc_stream_write, 4), ("file", sc_file, 3),
+KINDS = [("trickle", sc_trickle, 3), ("notify-pipe", sc_notify, 3), ("pkt-rcvr", sc_pkt, 3), ("accept", sc_accept, 2), ("connect", sc_connect, 2),
+         ("stream-read", sc_stream_read, 10), ("stream-write", sc_stream_write, 4), ("file", sc_file, 3),
          ("errpath", sc_errpath, 2), ("dispatch-eof", sc_dispatch_eof, 1), ("oneshot-partial", sc_oneshot_partial, 1)]
 
 def gen_batch(rng, count, deep, perturb=True):
@@ -236,7 +278,7 @@ def batch_text(tasks, perturb):
 # ------------------------------------------------------------------ validation
 KEEP = {"tknew", "tkfill", "tkcreate", "call.start", "ret.start", "call.restart", "ret.restart", "call.stop", "ret.stop", "call.enable",
         "ret.enable", "call.destroy", "ret.destroy", "ev.post", "sys.settime", "sys.fail", "loop.cb", "sys.io", "taskcb.begin", "cb.rewind", "cb.read",
-        "taskcb.end", "loop.turn", "peer.write", "peer.close", "peer.read", "waited", "quiesce", "tkcount", "Reset"}
+        "taskcb.end", "loop.turn", "peer.write", "peer.conn", "connect", "peer.close", "peer.read", "waited", "quiesce", "tkcount", "Reset"}
 
 def segments(evs):
     """split the log at Reset events (pure slicing); loop.turn events before the first tknew of a segment are dropped"""
@@ -418,4 +460,4 @@ def run(ctx):
     ctx.assumptions += ["epoll back end on Linux; the kernel's readiness/timer expiry is environment",
                         "callbacks obey the documented task contract (no CONTINUE from one-shot tasks; tasks without TP_F_DISPATCH stop or disable themselves before returning another code)",
                         "stop/enable/restart/destroy are issued on the task's own pool thread (or after quiescence at tear-down), as the statement says",
-                        "not exercised: tp_task_pkt_rcvr_handler, tp_task_accept_handler, tp_task_connect(_ex)_handler, kqueue back end, SO_RCVLOWAT"]
+                        "not exercised: tp_task_connect_ex_handler (retry / round-robin / time-limit logic), tp_task_bind_accept(_multi)_create, kqueue back end, SO_RCVLOWAT; the model checker explores the send/recv handler, the other handlers are bound by trace validation only"]
